@@ -708,19 +708,19 @@ func (ctx Ctx) copyExpr(n ast.Node, dst ast.Expr, src ast.Expr) coq.Expr {
 }
 
 func (ctx Ctx) callExpr(s *ast.CallExpr) coq.Expr {
-	if isIdent(s.Fun, "make") {
+	if ctx.isBuiltinIdent(s.Fun, "make") {
 		return ctx.makeExpr(s.Args)
 	}
-	if isIdent(s.Fun, "new") {
+	if ctx.isBuiltinIdent(s.Fun, "new") {
 		return ctx.newExpr(s.Args[0])
 	}
-	if isIdent(s.Fun, "len") {
+	if ctx.isBuiltinIdent(s.Fun, "len") {
 		return ctx.lenExpr(s)
 	}
-	if isIdent(s.Fun, "cap") {
+	if ctx.isBuiltinIdent(s.Fun, "cap") {
 		return ctx.capExpr(s)
 	}
-	if isIdent(s.Fun, "append") {
+	if ctx.isBuiltinIdent(s.Fun, "append") {
 		elemTy := sliceElem(ctx.typeOf(s.Args[0]).Underlying())
 		if s.Ellipsis == token.NoPos {
 			return coq.NewCallExpr(coq.GallinaIdent("SliceAppend"),
@@ -734,25 +734,25 @@ func (ctx Ctx) callExpr(s *ast.CallExpr) coq.Expr {
 			ctx.expr(s.Args[0]),
 			ctx.expr(s.Args[1]))
 	}
-	if isIdent(s.Fun, "copy") {
+	if ctx.isBuiltinIdent(s.Fun, "copy") {
 		return ctx.copyExpr(s, s.Args[0], s.Args[1])
 	}
-	if isIdent(s.Fun, "delete") {
+	if ctx.isBuiltinIdent(s.Fun, "delete") {
 		if _, ok := ctx.typeOf(s.Args[0]).(*types.Map); !ok {
 			ctx.unsupported(s, "delete on non-map")
 		}
 		return coq.NewCallExpr(coq.GallinaIdent("MapDelete"), ctx.expr(s.Args[0]), ctx.expr(s.Args[1]))
 	}
-	if isIdent(s.Fun, "uint64") {
+	if ctx.isBuiltinIdent(s.Fun, "uint64") {
 		return ctx.integerConversion(s, s.Args[0], 64)
 	}
-	if isIdent(s.Fun, "uint32") {
+	if ctx.isBuiltinIdent(s.Fun, "uint32") {
 		return ctx.integerConversion(s, s.Args[0], 32)
 	}
-	if isIdent(s.Fun, "uint8") {
+	if ctx.isBuiltinIdent(s.Fun, "uint8") {
 		return ctx.integerConversion(s, s.Args[0], 8)
 	}
-	if isIdent(s.Fun, "panic") {
+	if ctx.isBuiltinIdent(s.Fun, "panic") {
 		msg := "oops"
 		if e, ok := s.Args[0].(*ast.BasicLit); ok {
 			if e.Kind == token.STRING {
@@ -1087,6 +1087,13 @@ func (ctx Ctx) coqRecurFunc(fullFuncName string, e *ast.Ident) coq.Expr {
 func (ctx Ctx) function(s *ast.Ident) coq.Expr {
 	ctx.dep.addDep(s.Name)
 	return ctx.coqRecurFunc(s.Name, s)
+}
+
+// isBuiltinIdent reports whether e is the predeclared identifier name (and not
+// a user-defined function, variable or type that merely shares its spelling)
+func (ctx Ctx) isBuiltinIdent(e ast.Expr, name string) bool {
+	ident, ok := e.(*ast.Ident)
+	return ok && ident.Name == name && ctx.goBuiltin(ident)
 }
 
 func (ctx Ctx) goBuiltin(e *ast.Ident) bool {
